@@ -122,4 +122,34 @@ theorem secsOf_lt_iff (a b : Civil) (ha : validCivil a = true) (hb : validCivil 
     · have := secsOf_lt b a hb ha h1; omega
   · exact secsOf_lt a b ha hb
 
+theorem daysIn_feb (y : Nat) : 28 ≤ daysIn y 2 ∧ daysIn y 2 ≤ 29 := by
+  simp only [daysIn, Nat.reduceEqDiff, or_self, or_false, false_or, if_false, if_true]
+  split <;> omega
+
+theorem daysIn_other (y y' m : Nat) (h : m ≠ 2) : daysIn y' m = daysIn y m := by
+  simp [daysIn, h]
+
+/-- `Time::years_from_date` names a real calendar time whenever its argument does (so the `Time::utc`
+it ends in cannot fail on the date): the only day that does not exist in every year is moved. -/
+theorem yearsFromDate_valid (years : Int) (c : Civil) (h : validCivil c = true) :
+    validCivil (yearsFromDate years c) = true := by
+  obtain ⟨h1, h2, h3, h4, h5, h6, h7⟩ := valid_parts c h
+  have hs : min c.s 59 < 60 := by omega
+  have hd : (if c.d = 29 ∧ c.m = 2 then 28 else c.d) ≤ daysIn (((c.y : Int) + years).toNat) c.m ∧
+      1 ≤ (if c.d = 29 ∧ c.m = 2 then 28 else c.d) := by
+    by_cases hleap : c.d = 29 ∧ c.m = 2
+    · rw [if_pos hleap, hleap.2]
+      exact ⟨(daysIn_feb _).1, by omega⟩
+    · rw [if_neg hleap]
+      refine ⟨?_, h3⟩
+      by_cases hm : c.m = 2
+      · have : c.d ≠ 29 := fun e => hleap ⟨e, hm⟩
+        rw [hm] at h4 ⊢
+        have := (daysIn_feb c.y).2
+        have := (daysIn_feb (((c.y : Int) + years).toNat)).1
+        omega
+      · rw [daysIn_other c.y _ c.m hm]; exact h4
+  unfold yearsFromDate validCivil
+  simp only [h1, h2, hd.1, hd.2, h5, h6, hs, decide_true, Bool.and_self]
+
 end Rpki.X509
